@@ -38,6 +38,9 @@ type TenantSpec struct {
 	Trunc  int    `json:"trunc,omitempty"`  // > 0: the tenant's stream is cut after Trunc bytes (a short capture)
 	// RewindAt > 0: the tenant calls Rewind once before its RewindAt-th call (seekable readers)
 	RewindAt int `json:"rewind_at,omitempty"`
+	// AFOnly > 0: that many adaptation-only packets carrying transport private data are inserted
+	// into the tenant's stream (returned by NextPacket and kept by the tenant like any other)
+	AFOnly int `json:"af_only,omitempty"`
 }
 
 // SchedPlan decides who runs next at every yield.
@@ -150,6 +153,9 @@ func genTenant(r *core.PRNG) TenantSpec {
 	}
 	if rew && (t.Reader == "" || t.Reader == "seekable") {
 		t.RewindAt = r.Range(1, 14)
+	}
+	if r.Chance(1, 3) {
+		t.AFOnly = r.Range(1, 4)
 	}
 	switch r.Pick(4, 1, 2) {
 	case 0:
@@ -328,7 +334,26 @@ func runTenant(spec *TenantSpec, yield func()) (res *tenantResult) {
 		if err != nil {
 			return
 		}
-		data, npk = reframe(b.Packets, spec.K), len(b.Packets)
+		pkts := b.Packets
+		if spec.AFOnly > 0 && len(pkts) > 0 {
+			var withAF [][]byte
+			every := len(pkts)/spec.AFOnly + 1
+			for i, raw := range pkts {
+				withAF = append(withAF, raw)
+				if i%every == every/2 {
+					priv := make([]byte, 3+i%9)
+					for k := range priv {
+						priv[k] = byte(0xa0 + (i+k)%64)
+					}
+					q := &refts.Pkt{PID: b.Meta[i].PID, AFC: 2, CC: b.Meta[i].CC, AF: refts.StuffAF(&refts.AF{HasPrivate: true, Private: priv}, 184)}
+					if enc, err := refts.EncodePacket(q); err == nil {
+						withAF = append(withAF, enc)
+					}
+				}
+			}
+			pkts = withAF
+		}
+		data, npk = reframe(pkts, spec.K), len(pkts)
 		if spec.Trunc > 0 && spec.Trunc < len(data) {
 			data = data[:spec.Trunc]
 		}
